@@ -16,7 +16,7 @@ def describe(tier):
         "Oracle: an exception is raised and victim + neighbours read back unchanged.",
         bounds=dict(history_types=len(universe.rh(tier)), legal_prefix_depth=0 if tier == "quick" else 1),
         assumptions=["only the misuse classes named by the property are demanded to raise"],
-        must_fire=["x-index", "x-len", "x-str", "x-items", "x-struct", "x-struct-xobj", "x-struct-resplit", "x-scalar-seq", "x-union", "x-union-in", "x-ctx", "x-offset"],
+        must_fire=["x-index", "x-len", "x-str", "x-items", "x-struct", "x-struct-xobj", "x-struct-resplit", "x-scalar-seq", "x-scalar-seq-in", "x-union", "x-union-in", "x-ctx", "x-offset"],
     )
 
 
@@ -231,6 +231,9 @@ def misuse_menu(s, opts, d):
                 for extra in (0, 5):
                     for mode in ("get", "set"):
                         evs.append(("x-index", "h", path, tuple([0] * len(shape)) + (extra,), mode))
+            if nt[1][0] == "S" and len(nv["items"]) > 1 and xt.py_expressible(nt, nv) and (not path or path[-1] not in ("*", "#")):
+                # whole-array update from a list whose LAST item (in memory order) is a sequence, the earlier ones new numbers
+                evs.append(("x-scalar-seq-in", "h", path))
             if path and path[-1] not in ("*", "#"):  # whole-array updates need a parent holding the array by value
                 for via in ("h", "v"):
                     evs.append(("x-len", via, path, "longer"))
@@ -339,6 +342,15 @@ def apply_misuse(s, ev):
         dt = xt.NPDT[nt[1]]
         arg = [nv, nv] if ev[3] == "list2" else np.array([nv, nv, nv], dtype=dt)
         hand.assign(rt, rh, path, arg)
+    elif kind == "x-scalar-seq-in":
+        alt = alt_everywhere(nt, nv)
+        arg = xt.to_py(nt, alt)
+        last = list(xt.mem_indices(nv["shape"], nt[3]))[-1]
+        py_put(arg, (last,), [alt["items"][last], alt["items"][last]])
+        if path:
+            hand.assign(rt, rh, path, arg)
+        else:
+            rh._update(arg)
     elif kind == "x-items":
         variant = ev[3]
         items = dict(nv["items"])
